@@ -675,3 +675,44 @@ CHECKS['C16']['gens'] = CHECKS['C16']['gens'] + ['StreamWriter']
 CHECKS['C16']['level_text'] = CHECKS['C16']['level_text'] + (" WRITER (Props/C16Writer): the batching loop of streamWriter.run, statement list and batch-limit test regenerated: C16_writer_batch_conserves — encoded ++ failed ++ still-in-channel "
     "= what the loop started with, for every queue, counter, buffer size and encoder behaviour (nothing is taken from the channel and dropped); C16_writer_batch_no_loss; C16_writer_batch_bounded (forced flush); witness of the seeded late-limit variant dropping a message. "
     "Tie besides the pin: protocol streamw runs the real writer goroutine.")
+# ---- bitmap family (work package wX): executable model Z.BitExec (lean/ZanVerif/Data/Bit*.lean), protocol datacorebit
+#      (harness/cmd/zvh/proto_datacore_bit.go, lean/Driver/DataBit.lean), Props/C08Bit, C09Bit, C12Bit, C11Models; Gen/Bit.lean
+DATACORE_BIT_RULE = ("datacorebit: sessions of 25-95 bitmap commands (setbit / setbitv2 incl. clearing bits on missing keys and segments, bitclear, bexpire, bpersist; getbit, bitcount with and without range, bkeyexist, bttl) "
+    "on 1-4 keys over two tables (names that are prefixes of each other, contain ':' / 0x00 / 0xff) on a REAL KVNode (real leader-side handlers, proposal capture, real apply path, real read handlers), both expiry layouts (compact 75% / local 25%), "
+    "mem-btree and pebble, a third of the sessions with several entries per apply event; offsets around byte and segment boundaries (+-1 bit / byte), the growth rule of a stored segment (doubling beyond 1024 bytes), sparse far bits, the leader's "
+    "maximum (MaxBitOffset) +-1 and - through `aw` lines that enter the log without the leader-side argument checks - the apply path's maximum (MaxBitOffsetV2) +-1, 2^32, 2^33, int64 extremes, negative; values other than 0 / 1, non-integer / "
+    "empty / overflowing offsets and values, wrong argument counts; BITCOUNT with every start / end shape (negative, crossing segments, start > end, beyond the size, int64 extremes, non-numeric); log time stepping onto / across expiry seconds "
+    "(past and future regime as in datacorettl, 2000000000 = overflow in the future regime, 0 / negative / non-numeric durations); in half of the sessions KV commands (set, setex, expire, del) on the SAME names (the legacy bitmap-in-a-string paths of "
+    "GETBIT / BITCOUNT / BKEYEXIST and the conversion at the head of BitSetV2); after EVERY apply event the whole physical store (`raw`: every engine pair, values run-length coded, table key counters left out) is compared with the model's store, "
+    "and `binv` lines put BITCOUNT key start end next to the number of offsets the session ever tried to set (plus the bits of every string stored under the name) that lie in the byte range and whose GETBIT is 1 (Go-side C09 oracle), "
+    "`bchk` lines ask GETBIT for the bit a well-formed SETBIT just wrote (Go-side C08 oracle get-after-set, skipped while the meta carries an expiry); "
+    "non-trivial = answered without error class; distinct = distinct op lines")
+for _p, _cls, _spec, _q, _t in (('C08', '(get-after-set:|hang|harness)', True, 1, 2), ('C09', 'count-enum-mismatch:', True, 1, 2), ('C11', '(panic|error-changed-state|proposed-and-|no-reply|hang|proposal-count)', False, 1, 1)):
+    _pc = dict(name='datacorebit', quick_seeds=_q, thorough_seeds=_t, classes=_cls)
+    if _spec:
+        _pc['spec'] = True
+    CHECKS[_p]['protos'].append(_pc)
+    CHECKS[_p]['gens'] = CHECKS[_p]['gens'] + ['Bit']
+    CHECKS[_p]['rule'] = CHECKS[_p]['rule'] + ' || ' + DATACORE_BIT_RULE
+CHECKS['C08']['props'] = CHECKS['C08']['props'] + ['ZanVerif.Props.C08Bit']
+CHECKS['C09']['props'] = CHECKS['C09']['props'] + ['ZanVerif.Props.C09Bit']
+CHECKS['C12']['props'] = CHECKS['C12']['props'] + ['ZanVerif.Props.C12Bit']
+CHECKS['C12']['gens'] = CHECKS['C12']['gens'] + ['Bit']
+_BIT_TRUST = ["bitmap model: model domain = table name and key part non-empty, keys inside the server's limits (an EMPTY key part is outside: finding C11-setbit-empty-keypart); the table key counter, slow log / metrics and the time index BEXPIRE writes under local_deletion are not modelled (BEXPIRE is generated under the value-header layout only); "
+              "reads use the wall clock in the code and the `now=` of the session in the model (same expiry regime, as in datacorettl); KV commands on bitmap names always close their apply event (DEL reads the committed store only)"]
+_BIT_PARTIAL = ["bitmap: BitCountV2 AS THE CODE IS violates C09 (known findings C09-bitcount-counts-behind-end, C11-bitcount-slice-panic): the model reproduces it (`bitcount`), theorems C09Bit_bitcount_overcount / _right_without_segment_behind / _panics say exactly when and by how much; "
+                "the prescribed BITCOUNT (`bitcountSpec`) and a repaired iterator-based one (`bitcountFixed`) are proved equal to the GETBIT enumeration (every store / every well-formed store); after a repair of BitCountV2 the driver line `bitcount` -> `bitcountFixed` in lean/Driver/DataBit.lean (readCmd, binv) is the only change",
+                "bitmap: the size invariant (stored size >= end of every stored segment of the live generation) makes the whole-key BITCOUNT of the code right (C09Bit_bitcount_whole_key_right); it is proved established by the SETBIT that starts a generation and kept by every later SETBIT on the key and on other keys (C09Bit_sizeOK_setbit_self / _other, hypothesis: no legacy conversion, fresh generation = the proviso of the known finding generation = timestamp), NOT as a reachability theorem over all commands (BEXPIRE / BPERSIST / BITCLEAR steps are not proved); an EXPIRED meta hands its size on to the next generation (witness C08Bit_expired_size_survives_witness)",
+                "bitmap: SETBIT theorems carry the hypothesis `no legacy conversion` (live v2 bitmap, or no string under the name); the conversion is tied by the differential run and shown by witness (C08Bit_legacy_string_lost_witness: under the value-header layout the string's bits are lost)"]
+CHECKS['C08']['trusted'] = CHECKS['C08']['trusted'] + _BIT_TRUST
+CHECKS['C09']['trusted'] = CHECKS['C09']['trusted'] + _BIT_TRUST
+CHECKS['C08']['partial'] = [x.replace('bitmap, HyperLogLog', 'HyperLogLog') for x in CHECKS['C08']['partial']] + _BIT_PARTIAL
+CHECKS['C09']['partial'] = CHECKS['C09']['partial'] + _BIT_PARTIAL[:2]
+CHECKS['C08']['level_text'] = CHECKS['C08']['level_text'] + (" BITMAP (Props/C08Bit.lean over the executable model Data/BitExec.lean, both layouts, every decision expression regenerated in Gen/Bit.lean, tied by protocol datacorebit incl. the physical store after every apply event): "
+    "SETBIT on a live bitmap answers the bit GETBIT showed and afterwards GETBIT reads the new bit at that offset and the old bit at every other offset, at every read time before the expiry (C08Bit_setbit_live); on an absent or expired bitmap it answers 0 and starts an all-zero bitmap (C08Bit_setbit_dead, under the fresh-generation proviso); "
+    "no other bitmap key (GETBIT / BITCOUNT / BKEYEXIST / BTTL) and no key of another type changes (C08Bit_setbit_other_bitmaps / _other_types, over the codec separation of Props/C12Bit.lean); the argument guards (C08Bit_setbit_guards).")
+CHECKS['C09']['level_text'] = CHECKS['C09']['level_text'] + (" BITMAP (Props/C09Bit.lean): the prescribed BITCOUNT (point lookups) equals the number of offsets of the byte range whose GETBIT is 1 for the whole key and every start / end, in EVERY store (C09Bit_bitcountSpec_eq_enum); "
+    "a repaired iterator-based BITCOUNT equals it in every well-formed store, and well-formedness is preserved by every command (C09Bit_bitcountFixed_eq_enum, C09Bit_wf_reachable); BitCountV2 as it is answers that number PLUS the set bits of every stored segment behind the segment of `end`, "
+    "or panics (C09Bit_bitcount_overcount, C09Bit_bitcount_panics, witnesses by evaluation on reachable stores; the real code shows both: known findings).")
+CHECKS['C11']['level_text'] = CHECKS['C11']['level_text'] + " Bitmap: C11_setbit / bitclear / bexpire / bpersist_error_no_effect on the model of protocol datacorebit (both layouts); a Go panic of the apply path is exhibited (C11_setbit_panic_witness; known finding)."
+CHECKS['C12']['level_text'] = CHECKS['C12']['level_text'] + " Bitmap keys (Props/C12Bit.lean): segment keys injective in (table, versioned key, index), meta keys in (table, key), both type bytes apart from each other and from every other tuple, segment keys of a generation ordered by index below its stop key, iterator range isolation."
